@@ -12,6 +12,7 @@ import (
 	"fmt"
 	"os"
 	"sort"
+	"sync/atomic"
 	"time"
 )
 
@@ -75,7 +76,38 @@ func short(s string) string {
 	return s
 }
 
-func (r *Result) mine(i int) bool { return i%*flagShards == *flagShard }
+func (r *Result) mine(i int) bool { hbProgress.Add(1); return i%*flagShards == *flagShard }
+
+// hang watchdog: every enumerator calls mine()/outcome() between inputs; when neither has been called for
+// hangAfter, the call under test has not returned - a stable state of a sequential harness, not a timing
+// verdict (the stages with their own clocks use watchdogs well below it).
+var (
+	hbProgress atomic.Int64
+	hbCurrent  atomic.Value
+)
+
+const hangAfter = 300 * time.Second
+
+// note records the input being executed, for the watchdog's report
+func (r *Result) note(in interface{}) { hbCurrent.Store(jstr(in)) }
+
+func startHangWatchdog(onHang func(input string)) {
+	go func() {
+		last, since := int64(-1), time.Now()
+		for {
+			time.Sleep(5 * time.Second)
+			if cur := hbProgress.Load(); cur != last {
+				last, since = cur, time.Now()
+				continue
+			}
+			if time.Since(since) > hangAfter {
+				in, _ := hbCurrent.Load().(string)
+				onHang(in)
+				return
+			}
+		}
+	}()
+}
 
 func (r *Result) expired() bool {
 	if !r.deadline.IsZero() && time.Now().After(r.deadline) {
@@ -85,7 +117,7 @@ func (r *Result) expired() bool {
 	return false
 }
 
-func (r *Result) outcome(o string) { r.Outcomes[o]++ }
+func (r *Result) outcome(o string) { hbProgress.Add(1); r.Outcomes[o]++ }
 
 // distinct counts an input text once (FNV-1a hash set, per shard).
 func (r *Result) distinct(s string) {
@@ -158,6 +190,10 @@ func main() {
 			fmt.Fprintln(os.Stderr, "cannot replay:", err)
 			os.Exit(2)
 		}
+		startHangWatchdog(func(string) {
+			fmt.Printf("VIOLATION property=%s replay=%s\n  key=symptom=hang\n  the call under test did not return within %s\n", prop, *flagReplay, hangAfter)
+			os.Exit(1)
+		})
 		msg, key := p.replay(rf.Input)
 		fmt.Printf("input: %s\n", short(string(rf.Input)))
 		if msg != "" {
@@ -172,6 +208,19 @@ func main() {
 	if *flagBudget > 0 {
 		res.deadline = t0.Add(*flagBudget)
 	}
+	startHangWatchdog(func(in string) {
+		// the enumerating goroutine is stuck inside the library: res is not being written
+		res.violation("symptom=hang", fmt.Sprintf("the call under test did not return within %s (no input finished since); input being executed: %s", hangAfter, short(in)), json.RawMessage(orNull(in)))
+		res.outcome("violation:symptom=hang")
+		res.WallS = time.Since(t0).Seconds()
+		b, _ := json.Marshal(res)
+		if *flagOut != "" {
+			os.WriteFile(*flagOut, b, 0o644)
+		} else {
+			fmt.Printf("  VIOLATION key=symptom=hang input=%s\n", short(in))
+		}
+		os.Exit(0)
+	})
 	p.run(*flagTier, res)
 	res.WallS = time.Since(t0).Seconds()
 	b, _ := json.Marshal(res)
@@ -208,6 +257,13 @@ func helperMain(kind string, args []string) int {
 }
 
 var helpers = map[string]func(args []string) int{}
+
+func orNull(s string) string {
+	if s == "" || !json.Valid([]byte(s)) {
+		return "null"
+	}
+	return s
+}
 
 func writeFile(path string, b []byte) { os.WriteFile(path, b, 0o644) }
 func exitNow(code int)                { os.Exit(code) }
